@@ -71,6 +71,9 @@ DownsampleOp(s, n) == IF DownsampleErr(s) THEN s ELSE NewPointsOp(s, n)
 \* template: detector sampling changes, so both caches, the detection points and the memoised
 \* efficiency go
 SetTmplOp(s, nd, g) == [s EXCEPT !.tmpl = @ + 1, !.nd = nd, !.geo = g, !.actC = NoCache, !.attC = NoCache, !.eff = Unset, !.asu = FALSE]
+\* a scatter-point image that set_up derived with template-dependent (automatic) settings is
+\* derived again after a template change
+DropDerivedOp(s) == [s EXCEPT !.spImg = 0]
 SetEnergyOp(s) == [s EXCEPT !.energy = @ + 1, !.asu = FALSE]
 \* cache switch: a call that does not change the value is a no-op; a change removes the caches
 \* (they are only allocated by set_up, so a new set_up is required)
